@@ -336,6 +336,14 @@ def generate(template_path, with_mutants=False):
                     "mutants": [m["name"] for m in f.mutants],
                     "assumed": f.assumed[0] if f.assumed else None,
                 })
+            for a in r.get("auto_fns", []):
+                # E27: an unlisted pure helper of the same impl, extracted with the contract `result == its own body`
+                g.functions.append({
+                    "name": a["name"], "container": ex.name if ex.kind == "impl" else None, "file": ex.file,
+                    "hash_repo_tokens": a["hash_before"], "hash_after_rules": a["hash_before"], "rules_applied": {"E27": 1},
+                    "n_loops": 0, "n_closures": 0, "calls": [], "requires": ["ensures result == (the function's own straight-line body)"],
+                    "loop_invariants": 0, "closure_contracts": 0, "mutants": [], "assumed": None, "auto": True,
+                })
             if any(f.mutants for f in ex.fns):
                 mutant_sites.append((len(out), ex, r["text"], infos))
         else:
